@@ -1,7 +1,6 @@
 package types
 
 import (
-	"encoding/hex"
 
 	"github.com/ExocoreNetwork/exocore/utils"
 
@@ -10,6 +9,7 @@ import (
 	assetstypes "github.com/ExocoreNetwork/exocore/x/assets/types"
 	sdk "github.com/cosmos/cosmos-sdk/types"
 	"github.com/ethereum/go-ethereum/common"
+	"github.com/ethereum/go-ethereum/common/hexutil"
 	"golang.org/x/xerrors"
 )
 
@@ -202,7 +202,8 @@ func (gs GenesisState) ValidateUndelegations() error {
 			return errorsmod.Wrap(ErrInvalidGenesisData, err.Error())
 		}
 
-		bytes, err := hex.DecodeString(undelegation.TxHash)
+		// the hash is stored the way common.Hash.String() renders it, i.e. with the 0x prefix
+		bytes, err := hexutil.Decode(undelegation.TxHash)
 		if err != nil {
 			return errorsmod.Wrapf(
 				ErrInvalidGenesisData, "TxHash isn't a hex string, TxHash: %s",
